@@ -386,3 +386,46 @@ Section Agree.
     destruct (flat fields fuel pl sh p) as [[[[pl' sh'] code] t]|]; split; intros; (reflexivity || discriminate).
   Qed.
 End Agree.
+
+(* ================================================================================================== *)
+(* convenience: a single public field; running a program = flattening it and running the straight-line   *)
+(* code                                                                                                 *)
+(* ================================================================================================== *)
+Lemma disjoint_single : forall f, disjoint_fields [f].
+Proof. intros f g1 g2 [<-|[]] [<-|[]] H. congruence. Qed.
+Lemma nodup_single : forall f : field, NoDup [f].
+Proof. intros f. constructor; [intros [] | constructor]. Qed.
+Lemma Inv_single : forall f v m, field_val m f = v -> field_inb m f -> Inv [f] [(f, v)] m.
+Proof.
+  intros f v m Hv Hi. constructor; [reflexivity | constructor; [exact Hv | constructor] | constructor; [exact Hi | constructor]].
+Qed.
+Lemma disjoint_nil : disjoint_fields []. Proof. intros f g []. Qed.
+Lemma Inv_nil : forall m, Inv [] [] m. Proof. intros m. constructor; constructor. Qed.
+
+Theorem interp_of_flat : forall fields callf, disjoint_fields fields -> NoDup fields ->
+  forall fuel code pl sh m pl' sh' c t, Inv fields sh m ->
+  flat fields fuel pl sh code = Some (pl', sh', c, t) ->
+  interp fields callf fuel pl (m, []) code = Some (pl', exec bool xorb andb false true callf c (m, []), t).
+Proof.
+  intros fields callf Hd Hn fuel code pl sh m pl' sh' c t HI Hf.
+  rewrite (interp_flat fields callf Hd Hn fuel code pl sh m [] HI), Hf. reflexivity.
+Qed.
+
+(* decidable side conditions on the field list of a generated function *)
+Definition fields_okb (fields : list field) : bool :=
+  forallb (fun f => forallb (fun g => field_eqb f g || negb (overlaps (fst (fst f)) (snd (fst f)) (snd f) g)) fields) fields
+  && (fix nodup (l : list field) : bool :=
+        match l with [] => true | f :: l' => negb (existsb (field_eqb f) l') && nodup l' end) fields.
+Lemma fields_okb_sound : forall fields, fields_okb fields = true -> disjoint_fields fields /\ NoDup fields.
+Proof.
+  intros fields H. unfold fields_okb in H. apply andb_true_iff in H. destruct H as [H1 H2]. split.
+  - intros f g Hf Hg Hne. rewrite forallb_forall in H1. specialize (H1 f Hf). rewrite forallb_forall in H1.
+    specialize (H1 g Hg). apply orb_true_iff in H1. destruct H1 as [H1|H1].
+    + apply field_eqb_eq0 in H1. congruence.
+    + apply negb_true_iff in H1. exact H1.
+  - clear H1. induction fields as [|f l IH]; [constructor|].
+    apply andb_true_iff in H2. destruct H2 as [Ha Hb]. constructor; [|apply IH; exact Hb].
+    intros Hin. apply negb_true_iff in Ha.
+    assert (existsb (field_eqb f) l = true) by (apply existsb_exists; exists f; split; [exact Hin | apply field_eqb_eq0; reflexivity]).
+    congruence.
+Qed.
